@@ -81,7 +81,13 @@ def _obj_levels(base, t, dtype, with_zero):
     return lv
 
 
-def _res_levels(t):
+def _res_levels(t, a, absgrid):
+    """Reservation levels (fractions of capacity).  With an absolute tolerance and absgrid: points a*(k+f) around
+    the multiples of a (f just below/above the rounding boundary .5), else small dyadic fractions plus a
+    quarter-step log grid of the relative tolerance."""
+    if a and absgrid:
+        lv = sorted({f32(a * (k + f)) for k in range(7) for f in (0.0, 0.3, 0.45, 0.55, 0.7)})
+        return [v for v in lv if v <= 1.5]
     r = (1.0 + (t if t else 0.1)) ** 0.25
     lv = [0.0, 1 / 1024, 3 / 1024, 5 / 1024, 1 / 64, 2 / 64, 3 / 64, 5 / 64, 8 / 64, 0.25]
     lv += [f32(0.3 * r ** e) for e in range(12)]
@@ -91,11 +97,21 @@ def _res_levels(t):
 @st.composite
 def tables(draw):
     entry = draw(st.sampled_from(["makepareto", "makepareto", "make_pareto", "make_pareto", "ctor"]))
-    zero = entry == "ctor" or draw(st.sampled_from([True, True, False, False, False]))
-    t = 0.0 if zero else draw(st.sampled_from([0.0, 0.01, 0.1, 0.1, 0.5, 0.5, 1.0]))
-    tr = 0.0 if zero else draw(st.sampled_from([0.0, 0.01, 0.1, 0.1, 0.5, 0.5]))
-    ak = 0.0 if zero else draw(st.sampled_from([0.0, 0.0, 0.0, 0.01, 0.1, "tr/2", "tr/3"]))
-    a = tr / int(ak[-1]) if isinstance(ak, str) else ak
+    scen = "zero" if entry == "ctor" else draw(st.sampled_from(
+        ["zero", "zero", "zero", "obj", "res-rel", "res-abs", "res-abs", "both", "both", "caller"]))
+    t = tr = a = 0.0
+    if scen == "obj":
+        t = draw(st.sampled_from([0.01, 0.1, 0.5, 1.0]))
+    elif scen == "res-rel":
+        t, tr = draw(st.sampled_from([0.0, 0.1, 0.5])), draw(st.sampled_from([0.01, 0.1, 0.5]))
+    elif scen == "res-abs":
+        t, a = draw(st.sampled_from([0.0, 0.0, 0.1])), draw(st.sampled_from([0.01, 0.05, 0.1]))
+    elif scen == "both":
+        t, tr, a = (draw(st.sampled_from([0.0, 0.1, 0.5, 1.0])), draw(st.sampled_from([0.01, 0.1, 0.5])),
+                    draw(st.sampled_from([0.01, 0.1])))
+    elif scen == "caller":      # make_pmappings_from_templates: absolute = relative / number of Einsums
+        t, tr = draw(st.sampled_from([0.01, 0.1, 0.5])), draw(st.sampled_from([0.01, 0.1, 0.5]))
+        a = tr / draw(st.sampled_from([1, 2, 3]))
     drop_valid = draw(st.booleans())
     inplace = draw(st.booleans())
     n = draw(st.sampled_from([1, 2, 3, 5, 8, 8, 13, 13, 30, 30, 60, 120, 200]))
@@ -108,12 +124,12 @@ def tables(draw):
         lv = _obj_levels(base, t, dt, draw(st.sampled_from([False] * 7 + [True])))
         specs.append((OBJ_NAMES[k], "objective", dt, lv, draw(st.sampled_from([1, 2, 3, 5, 16])), 0))
     n_res = draw(st.sampled_from([0, 1, 1, 1, 2, 2, 3]))
-    rl = _res_levels(tr if entry != "make_pareto" else max(t, tr))
+    rl = _res_levels(tr if entry != "make_pareto" else max(t, tr), a, draw(st.booleans()))
     res_order = draw(st.permutations(RES_NAMES))
     for k in range(n_res):
         dt = draw(st.sampled_from(["float32", "float32", "float64"]))
         specs.append((res_order[k], "reservation", dt, rl,
-                      draw(st.sampled_from([1, 2, 3, 3, 6, 6, 22])), draw(st.sampled_from([0, 1, 1, 4, 4, 8, 8, 10]))))
+                      draw(st.sampled_from([1, 2, 3, 3, 6, 6, 22, 35])), draw(st.sampled_from([0, 1, 1, 4, 4, 8, 8, 10]))))
     n_tile = draw(st.sampled_from([0, 1, 1, 1, 2, 2]))
     for k in range(n_tile):
         dt = draw(st.sampled_from(["uint8", "int64", "float64"]))
